@@ -2056,7 +2056,7 @@ Definition with_local (s : step) : Prop :=
   | _ => True
   end.
 Definition unknown_local (s : step) : Prop :=
-  match s with SUnknown c => unknown_again (gv_of_json (gv_json c)) | _ => True end.
+  match s with SUnknown (GMap m) => exists e, map_kind m = Some (KUnknown e) | _ => True end.
 
 (* Q holds of the step and of every step nested in it *)
 Fixpoint steps_all (Q : step -> Prop) (s : step) : Prop :=
@@ -2074,8 +2074,8 @@ Definition no_empty_primary_with_alias (p : pipeline) : Prop := pipeline_all ali
 Definition plugin_sources_canonical (p : pipeline) : Prop := pipeline_all sources_local p.
 (* every matrix adjustment has a `with` *)
 Definition adjustments_have_with (p : pipeline) : Prop := pipeline_all with_local p.
-(* every unknown step is of unknown kind (not a typed step whose decode failed) *)
-Definition unknowns_stay_unknown (p : pipeline) : Prop := pipeline_all unknown_local p.
+(* every unknown mapping step is of unknown kind (not a typed step whose decode failed) *)
+Definition no_fallback_unknown (p : pipeline) : Prop := pipeline_all unknown_local p.
 
 Lemma steps_all_group : forall Q k g ss rem,
   steps_all Q (SGroup k g ss rem) <-> Q (SGroup k g ss rem) /\ Forall (steps_all Q) ss.
@@ -2098,6 +2098,16 @@ Proof.
   apply steps_all_group in H1. apply steps_all_group in H2. apply steps_all_group.
   destruct H1 as [A1 B1], H2 as [A2 B2]. split; [split; assumption|].
   rewrite Forall_forall in *. intros x Hx. apply H; auto.
+Qed.
+
+Lemma unknown_again_doc : forall m e, map_kind m = Some (KUnknown e) ->
+  unknown_again (gv_of_json (gv_json (GMap m))).
+Proof.
+  intros m e MK. rewrite gv_json_map, gv_of_json_obj. cbn [unknown_again]. exists e.
+  unfold map_kind in *. rewrite aget_gmap. unfold jmap at 1. rewrite aget_map.
+  destruct (aget "type" m) as [v|]; cbn [option_map].
+  - destruct v; try discriminate MK. exact MK.
+  - rewrite keys_gmap, keys_jmap. exact MK.
 Qed.
 
 Definition restr (s : step) : Prop :=
@@ -2123,14 +2133,15 @@ Proof.
     + apply mapM_Forall2 in H. apply gv_wf_seq in W. clear w.
       induction H as [|x y l ss' [w' Hxy] HF IH]; [constructor|].
       inversion W; subst. inversion R; subst. constructor; [eapply IH2; eassumption|apply IH; assumption].
-  - intros g s w H W R. rewrite unm_step_S in H. apply step_body_inv in H.
+  - intros g s w H W R. rewrite unm_step_S in H. pose proof H as H0. apply step_body_inv in H.
     pose proof (steps_all_head _ _ R) as RL.
-    assert (U : s = SUnknown g -> step_fix_ok s).
-    { intros ->. split; [apply gv_wf_stable; exact W|]. apply RL. }
+    assert (U : forall m, g = GMap m -> s = SUnknown g -> step_fix_ok s).
+    { intros m -> ->. split; [apply gv_wf_stable; exact W|].
+      destruct RL as (_ & _ & e & MK). eapply unknown_again_doc. exact MK. }
     assert (T : forall m K, g = GMap m -> map_kind m = Some K -> typed_shape (unm_steps f) m K s w -> step_fix_ok s).
     { intros m K Hg MK Hs. subst g. pose proof W as W'. apply gv_wf_map in W'. destruct W' as [Nd _].
       destruct Hs as [Hs ?|c HK Hc Hs ?|HK Hs ?|HK Hs ?|HK Hs ?|key gr ss HK Hs Hf].
-      - apply U. exact Hs.
+      - eapply U; [reflexivity|exact Hs].
       - subst s K. cbn [step_fix_ok]. split.
         + apply cmd_from_pre; [|exact RL]. exact (all_ok _ _ _ _ (wf_unm_command m W) Hc).
         + unfold type_selects. rewrite (cmd_rem_type _ _ _ Hc). unfold map_kind in MK.
@@ -2154,7 +2165,8 @@ Proof.
     destruct H as [str Hg Hk Hs Hw|str Hg Hk Hs Hw|str Hg Hs Hw|m t Hg Ht Hs|m Hg Ht Hs].
     + subst s. right. left. reflexivity.
     + subst s. left. intros E. subst str. apply scalar_input_nonempty in Hk. discriminate Hk.
-    + apply U. exact Hs.
+    + subst g s. split; [exact I|]. cbn [gv_json gv_of_json unknown_again].
+      cbn [step_body] in H0. destruct (kind_of_scalar str); try discriminate H0; split; discriminate.
     + eapply T; [exact Hg| |exact Hs]. unfold map_kind. rewrite Ht. reflexivity.
     + eapply T; [exact Hg| |exact Hs]. unfold map_kind. rewrite Ht. reflexivity.
 Qed.
@@ -2178,11 +2190,11 @@ Qed.
 Theorem parse_result_fix_ok : forall g p w,
   parse_doc g = Ok p w -> doc_ok g ->
   no_empty_primary_with_alias p -> plugin_sources_canonical p ->
-  adjustments_have_with p -> unknowns_stay_unknown p ->
+  adjustments_have_with p -> no_fallback_unknown p ->
   pipeline_fix_ok p.
 Proof.
   intros g p w H W R1 R2 R3 R4. eapply parse_result_fix_ok_core; [exact H|exact W|].
-  unfold no_empty_primary_with_alias, plugin_sources_canonical, adjustments_have_with, unknowns_stay_unknown,
+  unfold no_empty_primary_with_alias, plugin_sources_canonical, adjustments_have_with, no_fallback_unknown,
     pipeline_all in *.
   rewrite Forall_forall in *. intros s Hs. unfold restr.
   apply (steps_all_and (fun s => alias_local s /\ sources_local s) (fun s => with_local s /\ unknown_local s)).
@@ -2194,7 +2206,7 @@ Qed.
 Corollary parse_marshal_reparse : forall g p w,
   parse_doc g = Ok p w -> doc_ok g ->
   no_empty_primary_with_alias p -> plugin_sources_canonical p ->
-  adjustments_have_with p -> unknowns_stay_unknown p ->
+  adjustments_have_with p -> no_fallback_unknown p ->
   exists p' w', reparse_json p = Ok p' w' /\ mj_pipeline p' = mj_pipeline p.
 Proof. intros. apply reparse_fixpoint. eapply parse_result_fix_ok; eassumption. Qed.
 
@@ -2238,7 +2250,7 @@ Ltac pred :=
 
 Example demo_ok : exists p w,
   parse_doc demo_doc = Ok p w /\ doc_ok demo_doc /\
-  no_empty_primary_with_alias p /\ plugin_sources_canonical p /\ adjustments_have_with p /\ unknowns_stay_unknown p.
+  no_empty_primary_with_alias p /\ plugin_sources_canonical p /\ adjustments_have_with p /\ no_fallback_unknown p.
 Proof.
   remember (parse_doc demo_doc) as r eqn:Er. vm_compute in Er.
   eexists. eexists. split; [rewrite Er; reflexivity|].
@@ -2249,8 +2261,8 @@ Proof.
            repeat constructor; cbn [sources_local cs_plugins]; pred. }
   split. { unfold adjustments_have_with, pipeline_all. cbn [pp_steps].
            repeat constructor; cbn [with_local cs_matrix mx_adj adj_has_with ma_with]; pred. }
-  unfold unknowns_stay_unknown, pipeline_all. cbn [pp_steps].
-  repeat constructor; cbn [unknown_local gv_json gv_of_json jmap gmap map fst snd unknown_again]; pred.
+  unfold no_fallback_unknown, pipeline_all. cbn [pp_steps].
+  repeat constructor; cbn [unknown_local]; pred.
 Qed.
 
 Example demo_fixpoint : exists p w p' w',
@@ -2260,6 +2272,77 @@ Proof.
   destruct (parse_marshal_reparse _ _ _ H W R1 R2 R3 R4) as (p' & w' & E1 & E2).
   exists p, w, p', w'. auto.
 Qed.
+
+(** the other hypotheses: which ones exclude real failures of the fixpoint property, and which one
+    is only forced by the proof *)
+Definition fix_check (g : gv) : option (json * json) :=
+  match parse_doc g with
+  | Ok p _ => match reparse_json p with Ok p' _ => Some (mj_pipeline p, mj_pipeline p') | Err => None end
+  | Err => None
+  end.
+
+Lemma fix_check_sound : forall g j j', fix_check g = Some (j, j') ->
+  exists p w p' w', parse_doc g = Ok p w /\ reparse_json p = Ok p' w' /\ mj_pipeline p = j /\ mj_pipeline p' = j'.
+Proof.
+  intros g j j' H. unfold fix_check in H. destruct (parse_doc g) as [p w|]; [|discriminate H].
+  destruct (reparse_json p) as [p' w'|] eqn:E; [|discriminate H]. inversion H; subst.
+  exists p, w, p', w'. auto.
+Qed.
+
+Ltac fix_fails d :=
+  let X := fresh in
+  assert (X : exists j j', fix_check d = Some (j, j') /\ j' <> j)
+    by (vm_compute; eexists; eexists; split; [reflexivity|discriminate]);
+  let j := fresh in let j' := fresh in let E := fresh in let N := fresh in
+  destruct X as (j & j' & E & N); apply fix_check_sound in E;
+  let p := fresh in let w := fresh in let p' := fresh in let w' := fresh in
+  let H1 := fresh in let H2 := fresh in let H3 := fresh in let H4 := fresh in
+  destruct E as (p & w & p' & w' & H1 & H2 & H3 & H4); subst;
+  exists p, w, p', w'; repeat split; assumption.
+
+(* a typed step whose decode fails (here: a timestamp key) becomes an unknown step holding the map in
+   document order; re-read, the timestamp is a string, the decode succeeds, the keys get sorted *)
+Definition d_time : gv := GSeq [GMap [("key", GTime "2001-01-01T00:00:00Z"); ("command", GStr "x")]].
+Example fallback_unknown_counterexample :
+  doc_ok d_time /\
+  exists p w p' w', parse_doc d_time = Ok p w /\ reparse_json p = Ok p' w' /\ mj_pipeline p' <> mj_pipeline p.
+Proof. split; [unfold doc_ok, d_time; cbn [gv_wf map fst snd]; pred|fix_fails d_time]. Qed.
+
+(* a plugin source on which canonicalisation is not idempotent *)
+Definition d_src : gv := GSeq [GMap [("command", GStr "x"); ("plugins", GSeq [GStr "x#../.."])]].
+Example plugin_source_counterexample :
+  doc_ok d_src /\
+  exists p w p' w', parse_doc d_src = Ok p w /\ reparse_json p = Ok p' w' /\ mj_pipeline p' <> mj_pipeline p.
+Proof. split; [unfold doc_ok, d_src; cbn [gv_wf map fst snd]; pred|fix_fails d_src]. Qed.
+
+(* an unstable number token: negative zero re-reads as the integer 0 *)
+Definition d_negzero : gv := GSeq [GMap [("command", GStr "x"); ("zz", GFloat "-0" "-0")]].
+Example unstable_number_counterexample :
+  exists p w p' w', parse_doc d_negzero = Ok p w /\ reparse_json p = Ok p' w' /\ mj_pipeline p' <> mj_pipeline p.
+Proof. fix_fails d_negzero. Qed.
+
+(* an adjustment without `with` marshals "with": null, which the re-parse rejects; the whole step then
+   falls back to an unknown step holding the same JSON: excluded by [adjustments_have_with] (the proof
+   needs the typed decode to succeed) although the fixpoint property itself still holds *)
+Definition d_with : gv :=
+  GSeq [GMap [("command", GStr "x");
+              ("matrix", GMap [("setup", GSeq [GStr "a"]); ("adjustments", GSeq [GMap [("skip", GBool true)]])])]].
+Example adjustment_without_with_still_fixpoint :
+  exists p w p' w', parse_doc d_with = Ok p w /\ ~ adjustments_have_with p /\
+                    reparse_json p = Ok p' w' /\ mj_pipeline p' = mj_pipeline p.
+Proof.
+  remember (parse_doc d_with) as r eqn:Er. vm_compute in Er.
+  eexists. eexists. eexists. eexists. split; [rewrite Er; reflexivity|]. split.
+  - unfold adjustments_have_with, pipeline_all. cbn [pp_steps]. intros H. inversion H as [|? ? H1 _]; subst.
+    destruct H1 as [H1 _]. cbn [with_local cs_matrix mx_adj] in H1. inversion H1 as [|? ? H2 _]; subst.
+    apply H2. reflexivity.
+  - split; vm_compute; reflexivity.
+Qed.
+
+(* configs as Parse stores them (ToMapRecursive of a document value) are fixpoints *)
+Corollary plugin_config_roundtrip_doc : forall c, gv_wf c ->
+  gv_json (to_map_recursive (gv_of_json (gv_json (to_map_recursive c)))) = gv_json (to_map_recursive c).
+Proof. intros c W. destruct (gv_wf_tmr c W). apply plugin_config_roundtrip; assumption. Qed.
 
 Print Assumptions reparse_fixpoint.
 Print Assumptions parse_marshal_reparse.
